@@ -153,7 +153,7 @@ var (
 
 	// Regexp to parse switch instruction.
 	reSwitch           = regexp.MustCompile(`^switch\s*(.*)`)
-	reSwitchCase       = regexp.MustCompile(`case ([^<=>!]+)([<=>!]{2})*(.*)`)
+	reSwitchCase       = regexp.MustCompile(`case ([^<=>!]+)(==|!=|>=|<=|>|<)*(.*)`)
 	reSwitchCaseHelper = regexp.MustCompile(`case ([^(]+)\(*([^)]*)\)`)
 
 	// Regexp to parse include instruction.
@@ -844,6 +844,12 @@ func (p *parser) parseCaseExpr(expr []byte) (l, r []byte, sl, sr bool, op op) {
 			op = p.parseOp(m[2])
 			r = bytealg.Trim(m[3], space)
 			sr = isStatic(r)
+		}
+		if len(l) > 0 {
+			l = bytealg.Trim(l, quotes)
+		}
+		if len(r) > 0 {
+			r = bytealg.Trim(r, quotes)
 		}
 	}
 	return
